@@ -199,10 +199,13 @@ class ListCommand(CommandAuth):
         if match:
             filter_raw = match.group(0)
             buf = buf[match.end(0):]
-            filter_ = modutf7_decode(filter_raw)
         else:
             filter_str, buf = String.parse(buf, params)
-            filter_ = modutf7_decode(filter_str.value)
+            filter_raw = filter_str.value
+        try:
+            filter_ = modutf7_decode(filter_raw)
+        except UnicodeError as exc:
+            raise NotParseable(buf) from exc
         _, buf = EndLine.parse(buf, params)
         return cls(params.tag, ref_name.value, filter_), buf
 
